@@ -185,7 +185,10 @@ type hbScenario struct {
 	K       int    `json:"k"`
 	Traffic int64  `json:"traffic"` // >=0: application messages both ways every I ms at this phase offset (ms); -1: none
 	Hold    int64  `json:"hold"`    // observation length in ms after the fault (or from start for live)
-	Peer    string `json:"peer"`    // client | raw
+	Peer    string `json:"peer"`    // client | raw | rawup
+	// rawup: the raw peer completes the polling->websocket upgrade Offset ms after the first ping is
+	// due (server socket creation + I); negative = before it
+	Offset int64 `json:"offset"`
 }
 
 type hbClose struct {
@@ -395,6 +398,9 @@ func runHbScenario1(sc hbScenario) hbRow {
 
 	if sc.Peer == "raw" {
 		return r.runRawPeer(url, fail)
+	}
+	if sc.Peer == "rawup" {
+		return r.runRawUpgradePeer(url, fail)
 	}
 
 	// ---- client
@@ -614,6 +620,150 @@ func (r *hbRig) runRawPeer(url string, fail func(bool, string, ...any) hbRow) hb
 	return row
 }
 
+// runRawUpgradePeer: a hand-driven Engine.IO v4 peer that opens a long-polling session, probes a
+// websocket, and sends UPGRADE at a chosen moment relative to the server's ping schedule, then
+// answers every ping it is sent.  When = "swap-nopoll": no poll request is pending from the
+// handshake to the upgrade (a ping issued in that window waits in the polling queue and must be
+// carried over to the websocket); "swap-poll": the peer polls (and answers pings by POST) until the
+// upgrade moment.
+func (r *hbRig) runRawUpgradePeer(url string, fail func(bool, string, ...any) hbRow) hbRow {
+	sc := r.sc
+	ctx, cancel := context.WithCancel(context.Background())
+	defer cancel()
+	hc := &http.Client{Timeout: time.Duration(4*(sc.I+sc.T)) * time.Millisecond}
+	get := func(q string) (string, error) {
+		resp, err := hc.Get(url + "?EIO=4&transport=polling" + q)
+		if err != nil {
+			return "", err
+		}
+		defer resp.Body.Close()
+		var buf bytes.Buffer
+		buf.ReadFrom(resp.Body)
+		if resp.StatusCode != 200 {
+			return "", fmt.Errorf("status %d", resp.StatusCode)
+		}
+		return buf.String(), nil
+	}
+	body, err := get("")
+	if err != nil || len(body) < 2 || body[0] != '0' {
+		return fail(true, "raw handshake: %v %q", err, body)
+	}
+	i := strings.Index(body, `"sid":"`)
+	if i < 0 {
+		return fail(true, "raw handshake: no sid in %q", body)
+	}
+	sid := body[i+7:]
+	sid = sid[:strings.Index(sid, `"`)]
+	r.mu.Lock()
+	r.row.OpenCli = r.now()
+	openSrv := r.row.OpenSrv
+	r.mu.Unlock()
+
+	wsURL := "ws" + strings.TrimPrefix(url, "http") + "?EIO=4&transport=websocket&sid=" + sid
+	conn, _, err := websocket.Dial(ctx, wsURL, nil)
+	if err != nil {
+		return fail(true, "raw ws dial: %v", err)
+	}
+	defer conn.CloseNow()
+	if err := conn.Write(ctx, websocket.MessageText, []byte("2probe")); err != nil {
+		return fail(true, "raw probe: %v", err)
+	}
+	if _, msg, err := conn.Read(ctx); err != nil || string(msg) != "3probe" {
+		return fail(true, "raw probe answer: %v %q", err, msg)
+	}
+	var upgraded atomic.Bool
+	var wsMu sync.Mutex
+	onPing := func() {
+		t := r.now()
+		r.mu.Lock()
+		r.row.CliPings = append(r.row.CliPings, t)
+		r.mu.Unlock()
+	}
+	wsPong := func() {
+		wsMu.Lock()
+		conn.Write(ctx, websocket.MessageText, []byte("3"))
+		wsMu.Unlock()
+	}
+	go func() { // websocket reader: a live peer answers every ping at once
+		for {
+			_, data, err := conn.Read(ctx)
+			if err != nil {
+				t := r.now()
+				r.mu.Lock()
+				if r.row.CliClose == nil {
+					r.row.CliClose = &hbClose{T: t, Reason: "raw: connection ended"}
+				}
+				r.mu.Unlock()
+				return
+			}
+			if string(data) == "2" {
+				onPing()
+				wsPong()
+			}
+		}
+	}()
+	if sc.When == "swap-poll" {
+		go func() {
+			for !upgraded.Load() {
+				b, err := get("&sid=" + sid)
+				if err != nil {
+					return
+				}
+				for _, pkt := range strings.Split(b, "\x1e") {
+					if pkt == "2" {
+						onPing()
+						if upgraded.Load() {
+							wsPong()
+						} else if resp, err := hc.Post(url+"?EIO=4&transport=polling&sid="+sid, "text/plain", strings.NewReader("3")); err == nil {
+							resp.Body.Close()
+						}
+					}
+				}
+			}
+		}()
+	}
+	// the upgrade moment, relative to the server's ping schedule
+	at := time.Duration(openSrv+sc.I+sc.Offset) * time.Millisecond
+	if d := at - time.Since(r.start); d > 0 {
+		time.Sleep(d)
+	}
+	upgraded.Store(true)
+	wsMu.Lock()
+	err = conn.Write(ctx, websocket.MessageText, []byte("5"))
+	wsMu.Unlock()
+	t := r.now()
+	r.mu.Lock()
+	r.row.Cut = t
+	r.row.Upgraded = t
+	r.mu.Unlock()
+	if err != nil {
+		return fail(true, "raw upgrade: %v", err)
+	}
+	t1 := time.Now()
+	for time.Since(t1) < time.Duration(sc.Hold)*time.Millisecond {
+		r.mu.Lock()
+		done := r.row.SrvClose != nil
+		r.mu.Unlock()
+		if done {
+			time.Sleep(50 * time.Millisecond)
+			break
+		}
+		time.Sleep(10 * time.Millisecond)
+	}
+	r.mu.Lock()
+	defer r.mu.Unlock()
+	r.row.End = r.now()
+	row := r.row
+	row.CliPings = append([]int64(nil), r.row.CliPings...)
+	row.SrvPongs = append([]int64(nil), r.row.SrvPongs...)
+	if r.row.SrvClose != nil {
+		c := *r.row.SrvClose
+		row.SrvClose = &c
+	}
+	row.CliClose = nil // the raw peer has no heartbeat of its own
+	return row
+}
+
 // ---------------------------------------------------------------------------- scenario tables
 
 var hbHoldExtra int64
@@ -643,6 +793,14 @@ func hbScenarios(tier string, seed uint64, only string) []hbScenario {
 		scs = append(scs, hbScenario{Name: name, Tr: tr, I: i, T: t, Fault: fault, When: when, K: k,
 			Traffic: traffic, Hold: hold, Peer: peer})
 	}
+	addSwap := func(i, t int64, when string, offset int64) {
+		hold := 3 * (i + t)
+		if t > i {
+			hold = 2*(i+t) + i
+		}
+		scs = append(scs, hbScenario{Name: fmt.Sprintf("upgrade/live/%s/off%d/I%d/T%d", when, offset, i, t),
+			Tr: "upgrade", I: i, T: t, Fault: "none", When: when, Traffic: -1, Hold: hold, Peer: "rawup", Offset: offset})
+	}
 	rnd := vk.NewRand(seed)
 	if tier == "quick" {
 		const I, T = 1000, 1000
@@ -664,6 +822,14 @@ func hbScenarios(tier string, seed uint64, only string) []hbScenario {
 		add("upgrade", I, T, "none", "-", 0, -1, "")
 		add("websocket", I, T, "none", "-", 0, int64(rnd.Intn(int(I))), "")
 		add("polling", I, T, "none", "-", 0, int64(rnd.Intn(int(I))), "")
+		// live peer whose upgrade completes around a ping (swept across the ping instant)
+		for _, off := range []int64{-200, -30, 30, 200, 600} {
+			addSwap(I, T, "swap-nopoll", off+int64(rnd.Intn(20))-10)
+		}
+		addSwap(I, 2*T, "swap-nopoll", 500)
+		addSwap(I, 2*T, "swap-nopoll", 1400+int64(rnd.Intn(200)))
+		addSwap(I, T, "swap-poll", -300)
+		addSwap(I, T, "swap-poll", 300)
 		// I != T: an interval/timeout mix-up is invisible at I = T
 		add("websocket", I, 2*T, "both", "after-pong", 1, -1, "")
 		add("polling", I, 2*T, "s2c", "before-ping", 1, -1, "")
@@ -700,6 +866,11 @@ func hbScenarios(tier string, seed uint64, only string) []hbScenario {
 					}
 				}
 				add("upgrade", i, t, "none", "-", 0, int64(rnd.Intn(int(i))), "")
+				for _, frac := range []int64{-20, -3, 3, 20, 45, 70} {
+					addSwap(i, t, "swap-nopoll", t*frac/100+int64(rnd.Intn(20))-10)
+				}
+				addSwap(i, t, "swap-poll", -i*3/10)
+				addSwap(i, t, "swap-poll", t*3/10)
 				if diag {
 					add("websocket", i, t, "extra-pong", "extra-pong", 1+rnd.Intn(2), -1, "raw")
 					add("websocket", i, t, "jitter", "jitter", 1, -1, "")
